@@ -31,10 +31,7 @@ spec fn fails_ok<V>(n: NfaBuilder<char, V>, lm: bool) -> bool {
     &&& forall|s: int| 0 <= s < n.states@.len() ==> (#[trigger] n.states@[s]).fail < n.states@.len()
     &&& nfa_links(n, lm)
 }
-spec fn nfa_outs_ok<V>(n: NfaBuilder<char, V>) -> bool {
-    &&& forall|t: int| 0 <= t < n.states@.len() ==> opt_n((#[trigger] n.states@[t]).output_pos) <= n.outputs@.len()
-    &&& forall|j: int| 0 <= j < n.outputs@.len() ==> out_parent(#[trigger] n.outputs@[j]) <= j
-}
+//@include ghost_nfa_outs_cw.rs
 // breadth-first queue handed from the fail pass to the output pass
 spec fn queue_ok<V>(n: NfaBuilder<char, V>, q: Seq<u32>) -> bool {
     q.len() + 2 == n.states@.len() && q.len() > 0 && forall|i: int| 0 <= i < q.len() ==> 2 <= #[trigger] q[i] < n.states@.len()
@@ -46,6 +43,8 @@ impl<V: Copy> NfaBuilder<char, V> {
         requires trie_ok(*old(self)), reach_ok(*old(self)), old(self).states@.len() > 2,
         ensures passes_frame(*old(self), *final(self)), fails_ok(*final(self), false), queue_ok(*final(self), q@),
             final(self).outputs@ == old(self).outputs@,
+            // Aho-Corasick: fail(s) is the state of the longest proper suffix of path(s) that is a trie node
+            ac_fail(*final(self)),
     { unimplemented!() }
 
     #[verifier::external_body]
@@ -60,6 +59,8 @@ impl<V: Copy> NfaBuilder<char, V> {
         requires queue_ok(*old(self), q@),
         ensures passes_frame(*old(self), *final(self)), nfa_outs_ok(*final(self)),
             forall|s: int| 0 <= s < old(self).states@.len() ==> (#[trigger] final(self).states@[s]).fail == old(self).states@[s].fail,
+            // Aho-Corasick (standard fail links): the output chain of a state lists the registered suffixes of its path, longest first
+            ac_fail(*old(self)) ==> ac_fail(*final(self)) && ac_outs(*final(self)),
     { unimplemented!() }
 }
 
@@ -332,4 +333,68 @@ proof fn lemma_covers_frame<V>(a: NfaBuilder<char, V>, b: NfaBuilder<char, V>, t
             map_code(table, c as u32).is_some() && map_code(table, c as u32).unwrap() < asz by {
         assert(nfa_edges(a, s).contains_key(c));
     }
+}
+
+// ---- values and the end-to-end statements (char-wise) ----
+spec fn values_are<P: AsRef<str>, V>(n: NfaBuilder<char, V>, items: Seq<(P, V)>, k: int) -> bool {
+    forall|j: int| 0 <= j < k && is_registered(n, #[trigger] pat_at(items, j)) ==> reg_out(n, pat_at(items, j)).unwrap().0 == items[j].1
+}
+proof fn lemma_frame_keeps_values<P: AsRef<str>, V>(a: NfaBuilder<char, V>, b: NfaBuilder<char, V>, items: Seq<(P, V)>, k: int)
+    requires passes_frame(a, b), add_inv(a), reach_ok(a), values_are(a, items, k),
+    ensures values_are(b, items, k),
+{
+    lemma_frame_keeps_trie(a, b);
+    assert forall|j: int| 0 <= j < k && is_registered(b, #[trigger] pat_at(items, j)) implies reg_out(b, pat_at(items, j)).unwrap().0 == items[j].1 by {
+        let q = pat_at(items, j);
+        assert(walk(b, q) == walk(a, q));
+        lemma_walk_range(a, q);
+        assert(is_registered(a, q));
+    }
+}
+// the three standard searches of the finished char-wise automaton on well-formed UTF-8 equal the semantics over the decoded characters
+spec fn searches_ok_cw<V>(st: Seq<State>, tb: Seq<u32>, outs: Seq<Output<V>>, n: NfaBuilder<char, V>) -> bool {
+    forall|hay: Seq<u8>| utf8_ok(hay) ==>
+        #[trigger] cw_ovl_scan(st, tb, outs, 0, hay, 0) == sem_ovl_cw(n, Seq::<char>::empty(), hay, 0)
+        && cw_nosuf_scan(st, tb, outs, 0, hay, 0) == sem_nosuf_cw(n, Seq::<char>::empty(), hay, 0)
+        && cw_find_stream(st, tb, outs, hay, 0) == sem_find_cw(n, hay, 0)
+}
+proof fn lemma_searches_ok_cw<V>(n: NfaBuilder<char, V>, st: Seq<State>, tb: Seq<u32>, asz: u32, idmap: Seq<u32>)
+    requires nfa_tree(n), trie_ok(n), nfa_links(n, false), nfa_outs_ok(n), ac_fail(n), ac_outs(n),
+        cw_encodes(st, tb, n, idmap), cw_wf(st, tb, false), mapper_covers(n, tb, asz),
+    ensures searches_ok_cw(st, tb, n.outputs@, n),
+{
+    assert forall|hay: Seq<u8>| utf8_ok(hay) implies
+        #[trigger] cw_ovl_scan(st, tb, n.outputs@, 0, hay, 0) == sem_ovl_cw(n, Seq::<char>::empty(), hay, 0)
+        && cw_nosuf_scan(st, tb, n.outputs@, 0, hay, 0) == sem_nosuf_cw(n, Seq::<char>::empty(), hay, 0)
+        && cw_find_stream(st, tb, n.outputs@, hay, 0) == sem_find_cw(n, hay, 0) by {
+        theorem_c01_c05_cw(n, st, tb, asz, idmap, hay);
+        theorem_c02_cw(n, st, tb, asz, idmap, hay);
+    }
+}
+spec fn cwv_post<P: AsRef<str>, V>(st: Seq<State>, tb: Seq<u32>, outs: Seq<Output<V>>, num_states: u32, items: Seq<(P, V)>, kind: MatchKind) -> bool {
+    &&& pats_valid(items)
+    &&& cw_wf(st, tb, lm_of(kind)) && outs_ok_cw(st, outs)
+    &&& exists|n: NfaBuilder<char, V>| trie_ok(n) && reach_ok(n) && seen_is(n, items, items.len() as int)
+            && #[trigger] n.states@.len() == num_states + 1 && st.len() >= n.states@.len()
+            && values_are(n, items, items.len() as int)
+            && (kind is Standard ==> searches_ok_cw(st, tb, outs, n))
+}
+proof fn lemma_cwv_post<P: AsRef<str>, V>(nfa: NfaBuilder<char, V>, st: Seq<State>, tb: Seq<u32>, asz: u32, bl: u32, num_states: u32, items: Seq<(P, V)>, kind: MatchKind)
+    requires
+        pats_valid(items), nfa_tree(nfa), nfa_links(nfa, lm_of(kind)), nfa_outs_ok(nfa), trie_ok(nfa), reach_ok(nfa), nfa.states@.len() > 2,
+        seen_is(nfa, items, items.len() as int), values_are(nfa, items, items.len() as int), kind is Standard ==> ac_fail(nfa) && ac_outs(nfa),
+        mapper_covers(nfa, tb, asz), cw_table_ok(tb, asz),
+        // from build_double_array
+        pow2(bl), asz <= bl, st.len() > 0, st.len() as int % (bl as int) == 0, st.len() <= u32::MAX,
+        forall|i: int| 0 <= i < st.len() ==> ((#[trigger] st[i]).base.is_some() ==> st[i].base.unwrap()@ < st.len()),
+        exists|idmap: Seq<u32>| cw_built(st, tb, nfa, idmap),
+        nfa.states@.len() == num_states + 1,
+    ensures cwv_post(st, tb, nfa.outputs@, num_states, items, kind),
+{
+    let idmap = choose|idmap: Seq<u32>| cw_built(st, tb, nfa, idmap);
+    lemma_encodes_gives_wf(nfa, st, tb, asz, bl, idmap, lm_of(kind));
+    lemma_built_outs_ok_cw(st, tb, nfa, idmap);
+    lemma_slots_at_least_states_cw(st, tb, nfa, idmap);
+    if kind is Standard { lemma_searches_ok_cw(nfa, st, tb, asz, idmap); }
+    assert(nfa.states@.len() == num_states + 1 && st.len() >= nfa.states@.len());
 }
